@@ -63,6 +63,11 @@ package sio
 // (so a once-handler is handed out by exactly one getAll).
 //@ func (*handlerStore).getAll
 //@   modifies e.funcsOnce
+//@   ghost locks int = 0
+//@   callsite Lock
+//@     update locks = locks + 1
+//@   ensures locks == 1 [C18.hs.getall.atomic]
+//@   ensures fresh(handlers) [C18.hs.getall.copy]
 //@   ensures len(handlers) == old(len(e.subs) + len(e.funcs) + len(e.funcsOnce)) [C18.hs.getall.len]
 //@   ensures forall k int :: 0 <= k && k < old(len(e.subs)) ==> handlers[k] == old(e.subs[k]) [C18.hs.getall.subs]
 //@   ensures forall k int :: 0 <= k && k < old(len(e.funcs)) ==> handlers[old(len(e.subs)) + k] == old(e.funcs[k]) [C18.hs.getall.funcs]
@@ -102,6 +107,11 @@ package sio
 //@ func (*eventHandlerStore).getAll
 //@   requires esValid(e)
 //@   modifies mapof(e.eventsOnce)
+//@   ghost locks int = 0
+//@   callsite Lock
+//@     update locks = locks + 1
+//@   ensures locks == 1 [C18.es.getall.atomic]
+//@   ensures fresh(handlers) [C18.es.getall.copy]
 //@   ensures len(handlers) == old(len(e.events[eventName]) + len(e.eventsOnce[eventName])) [C18.es.getall.len]
 //@   ensures forall k int :: 0 <= k && k < old(len(e.events[eventName])) ==> handlers[k] == old(e.events[eventName][k]) [C18.es.getall.on]
 //@   ensures forall k int :: 0 <= k && k < old(len(e.eventsOnce[eventName])) ==> handlers[old(len(e.events[eventName])) + k] == old(e.eventsOnce[eventName][k]) [C18.es.getall.once]
